@@ -79,7 +79,7 @@ ASSUMPTIONS = ["all byte counts <= usize::MAX/4 (no wrap of sums of up to three 
 NOT_COVERED = ["error path of MemoryReservation::try_shrink (capacity > size): with std::fmt::format stubbed Kani 0.68 reports a spurious dealloc of an uninitialised String inside the error macro, with real formatting CBMC does not finish; by reading, the path performs no store", "thread interleavings", "TrackConsumersPool's per-consumer HashMap beyond TrackedConsumer"]
 EXPLANATION = ""
 
-KANI = [dict(package="datafusion-execution", timeout=2400, harnesses=[
+KANI = [dict(package="datafusion-execution", timeout=900, harnesses=[
     dict(name="c17_greedy_try_grow", module="execution/memory_pool_pool.rs", complete=True,
          what="GreedyMemoryPool::try_grow, full domain (<= usize::MAX/2): granted iff used+a <= pool_size; Ok adds exactly; Err changes nothing"),
     dict(name="c17_greedy_unbounded_grow_shrink", module="execution/memory_pool_pool.rs", complete=True,
